@@ -368,3 +368,57 @@ func (g *Gen) swarmExtras(p *Plan, persistent, topo bool) {
 		}
 	}
 }
+
+// RollbackChainScenario draws what a client that uses rollback as an undo stack does (round 2): a few changes (some of
+// them rejected by the model), then the changes are rolled back from the latest live one backwards, with a new change or
+// an out-of-turn request now and then. Every request waits for the one before, so the log order is the scenario order.
+// Random scenarios almost never contain two successful rollbacks in a row with a refused or rolled-back entry in between,
+// which is where the bookkeeping of "the change a rollback returns to" shows.
+func (g *Gen) RollbackChainScenario(targets []string) []ClientOp {
+	ts := targets
+	if len(ts) > 2 {
+		ts = ts[:2]
+	}
+	if g.chance(2, 3) {
+		ts = ts[:1]
+	}
+	var ops []ClientOp
+	var live, sets []int
+	addSet := func(poison bool) {
+		op := ClientOp{Kind: "set", WaitFor: len(ops) - 1, Targets: map[string][]MOp{}, Async: g.chance(1, 3)}
+		sub := ts
+		if len(ts) == 2 && g.chance(1, 2) {
+			sub = []string{ts[g.pick(2)]}
+		}
+		for j, t := range sub {
+			op.Targets[t] = g.RandOps(2, 35, poison && j == 0)
+		}
+		sets = append(sets, len(ops))
+		if !poison {
+			live = append(live, len(ops))
+		}
+		ops = append(ops, op)
+	}
+	n := 2 + g.pick(3)
+	for i := 0; i < n; i++ {
+		addSet(i > 0 && g.chance(1, 4))
+	}
+	m := 2 + g.pick(4)
+	for i := 0; i < m; i++ {
+		switch r := g.pick(10); {
+		case r < 6 && len(live) > 0:
+			of := live[len(live)-1]
+			live = live[:len(live)-1]
+			ops = append(ops, ClientOp{Kind: "rollback", Of: of, WaitFor: len(ops) - 1})
+		case r < 8:
+			of := sets[g.pick(len(sets))]
+			if len(live) > 0 && live[len(live)-1] == of {
+				live = live[:len(live)-1]
+			}
+			ops = append(ops, ClientOp{Kind: "rollback", Of: of, WaitFor: len(ops) - 1})
+		default:
+			addSet(g.chance(1, 5))
+		}
+	}
+	return ops
+}
